@@ -15,7 +15,8 @@ Shared words (all atomic in C, except the context which is lock protected):
 
 Actors.
   N  the native thread.  Inside `thread_f` = xstream_launch_root_ythread (x.tpc = run) it runs
-       thread_root_func:        ABTI_ASSERT(state == RUNNING); pop + schedule the main scheduler       nRoot
+       thread_root_func:        ABTI_ASSERT(state == RUNNING); pop the main scheduler's ULT;            nRoot c
+                                ABTI_ythread_schedule: CANCEL already requested -> terminate it unrun
        the scheduler's run():   pops and runs work units (one of them may call ABT_xstream_exit)       nRun / nRunExit
                                 ABTI_xstream_check_events: r = load(thread.request)                   nLoadReq
                                   if (r & JOIN) fetch_or(sched.request, FINISH)                       nSetFin
@@ -85,7 +86,7 @@ inductive Ev where
   | cancel
   | getState (t : Bool)
   | push
-  | nRoot
+  | nRoot (c : Bool)
   | nLoadReq (j c : Bool)
   | nSetFin | nSetExit
   | nRun | nRunExit
@@ -183,8 +184,11 @@ def step (s : St) : Ev → Option St
   | .getState t => if t = s.pub ∧ s.lpc ≠ .freed then some s else none
   | .push => if s.lpc ≠ .freed then some { s with pending := s.pending + 1, pushed := s.pushed + 1 } else none
   -- ---------------------------------------------------------------- native thread inside thread_f
-  | .nRoot =>   -- ABTI_ASSERT(state == RUNNING); the root pool hands out the main scheduler
-    if s.npc = .root ∧ s.rootq = true then some { s with fault := s.fault || s.pub, rootq := false, npc := .sched } else none
+  | .nRoot c =>   -- ABTI_ASSERT(state == RUNNING); the root pool hands out the main scheduler's ULT; ABTI_ythread_schedule
+    -- looks at its CANCEL request first: a ULT cancelled before it ever ran is terminated on the spot
+    if s.npc = .root ∧ s.rootq = true ∧ c = s.creq then
+      some { s with fault := s.fault || s.pub, rootq := false, npc := if c then .mend else .sched }
+    else none
   | .nLoadReq j c =>
     if s.npc = .sched ∧ j = s.jreq ∧ c = s.creq then some { s with npc := if j || c then .chk j c else .sched } else none
   | .nSetFin =>
@@ -220,7 +224,7 @@ def machine : Machine St Ev := { init := init, step := step }
 /-- steps of the native thread (used to state that the stream makes progress on its own) -/
 def isNative : Ev → Bool
   | .ctx e => actorOf e = .T
-  | .nRoot | .nLoadReq _ _ | .nSetFin | .nSetExit | .nRun | .nRunExit | .nStop | .nMsf _ | .nMTerm | .nPubTerm => true
+  | .nRoot _ | .nLoadReq _ _ | .nSetFin | .nSetExit | .nRun | .nRunExit | .nStop | .nMsf _ | .nMTerm | .nPubTerm => true
   | _ => false
 
 end ArgoVerif.Model.XsLife
